@@ -8,6 +8,7 @@ import (
 	"os"
 	"path/filepath"
 	"strings"
+	"sync/atomic"
 	"testing"
 	"time"
 
@@ -58,3 +59,6 @@ func getenvGodebug(key string) string {
 	}
 	return ""
 }
+
+func isWedgeSeen() bool { return atomic.LoadInt32(&wedgeSeen) != 0 }
+func setWedgeSeen()     { atomic.StoreInt32(&wedgeSeen, 1) }
